@@ -517,6 +517,31 @@ def run(ctx):
         ok = bool(putz) and bool(aggs) and all(icb.dominates(putz[0].block, a) for a in aggs)
         r5.check(ok, "intercept-ends-with-Z", "the intercept payload is terminated with ReadyForQuery ('Z')", "the intercept payload is not terminated with ReadyForQuery")
 
+    # `a query that matches an intercept rule is answered by the pooler`: also when it shares its message with other statements - the verdict Allow is reached
+    # only after every statement of the message has been compared with the rules, never from inside the walk over the statements (round 10: a fast path that
+    # returns Allow at the first statement that is not a rule forwards `SELECT 1; <rule>` whole)
+    if icb:
+        isw = switches(icb)
+        stmt_loops = [hd for hd in loop_headers(icb) if any(c.block in natural_loop(icb, hd) for c in icb.calls("re:ToString>::to_string$|^alloc::string::ToString::to_string$"))]
+        # outermost ones only (the walk over the rules sits inside the walk over the statements)
+        stmt_loops = [hd for hd in stmt_loops if not any(hd != h2 and hd in natural_loop(icb, h2) for h2 in stmt_loops)]
+        noneE, _s, _ = discr_edges(icb, r"core::option::Option<", "None", switches_cache=isw)
+        allows = [blk for blk, i, st in icb.assigns() if st["rv"]["k"] == "agg" and st["rv"].get("variant") == "Allow"]
+        early = []
+        for hd in stmt_loops:
+            loop_ = natural_loop(icb, hd)
+            for u in loop_:
+                for v in icb.succ("n")[u]:
+                    if v in loop_ or icb.blocks[v]["cleanup"] or icb.blocks[v]["term"]["k"] == "unreachable":
+                        continue
+                    if (u, v) in noneE and icb.dominates(hd, u) and not any(u in natural_loop(icb, h2) for h2 in loop_headers(icb) if h2 != hd and h2 in loop_):
+                        continue   # the walk is over: its iterator is exhausted
+                    if any(a_ in icb.reach([v]) for a_ in allows):
+                        early.append((u, v))
+        r5.check(bool(stmt_loops) and bool(allows) and not early, "intercept:allow-only-after-every-statement",
+                 "Intercept::run reaches Allow only where the walk over the statements of the message is over (%d walk(s), %d Allow site(s))" % (len(stmt_loops), len(allows)),
+                 "Intercept::run can leave its walk over the statements of the message early and answer Allow (exit bb%s): one statement that is not a rule lets the whole message through - "
+                 "`SELECT 1; <intercepted query>` reaches the server" % sorted({u for u, _ in early}))
     # the configured rows are the rule's rows with ${USER} / ${DATABASE} of the session that asks: the placeholders are filled in per query, on a private
     # copy of the configuration (round 6: filled in once at pool construction on a variable shared by the users of a pool - everybody got the first user's name)
     SUBST = "pgcat::config::Intercept::substitute"
